@@ -43,6 +43,9 @@ def configs(tier):
             for ie in (False, True):
                 for mode in modes:
                     out.append((n, ra, ie, mode))
+    # the same servers given as strings in their non-canonical spellings ("host", "host:port")
+    for ra in (0, 1):
+        out.append((2, ra, False, "refused+strings"))
     return out
 
 
@@ -83,6 +86,8 @@ def event_menu(n, tier):
 class World:
     def __init__(self, cfg):
         n, ra, ie, mode = cfg
+        strings = mode.endswith("+strings")
+        mode = mode.split("+")[0]
         self.mode = mode
         self.cfg = cfg
         self.n = n
@@ -96,7 +101,8 @@ class World:
         for srv in self.net.servers.values():
             for it in parse_all(pre)[0]:
                 srv.execute(it)
-        self.hc = HashClient(self.srvs, socket_module=self.net.module(), retry_attempts=ra, retry_timeout=RT,
+        specs = [h if i == 0 else "%s:%s" % (h, p) for i, (h, p) in enumerate(self.srvs)] if strings else self.srvs
+        self.hc = HashClient(specs, socket_module=self.net.module(), retry_attempts=ra, retry_timeout=RT,
                              dead_timeout=DT, ignore_exc=ie, default_noreply=False, connect_timeout=1, timeout=1)
         self.seq = 0
         # the rotation as it is at the moment a key is routed (a server can be revived and evicted
@@ -199,6 +205,10 @@ class World:
         bad = []
         desc = f"{name} on a key owned by {self.names[i]}"
         rot1 = set(map(str, hc.hasher.nodes))
+        unknown = (rot0 | rot1) - set(self.names)
+        if unknown:
+            bad.append(("rotation-holds-unknown-node", f"{desc}: the rotation contains {sorted(unknown)}, the servers are "
+                        f"{self.names} (name derived from the normalised (host, port))"))
         # M7: what may escape
         if res[0] == "exc":
             e = res[1]
@@ -253,7 +263,7 @@ class World:
             if outside:
                 bad.append(("rerouted-outside-rotation", f"{desc}: contacted {outside}, not in rotation {sorted(rot0)}"))
             healthy_in_rot = [idx for idx in range(n) if self.names[idx] in rot0 and idx not in self.ever_failed]
-            if healthy_in_rot and not touched:
+            if healthy_in_rot and not touched and not unknown:
                 # some never-failed server is in rotation: the reference rule over the rotation decides
                 target = rendezvous(sorted(rot0), k1)
                 tidx = self.names.index(target)
@@ -307,6 +317,62 @@ def build(cfg, menu, hist):
     for e in hist:
         w.apply(menu[e])
     return w
+
+
+def _grid_worker(job, chk):
+    """Two overlapping failures on a time grid (complements the BFS, whose depth bound keeps it to
+    shallow double failures): server A fails at t=0 and is driven to eviction as fast as the retry
+    policy allows; server B fails at time tb; traffic on B's key at every subset of <= 4 grid times
+    (optionally twice at the last one).  The monitors of World.op run on every operation."""
+    (ra, ie, tb), tier = job
+    import itertools
+    cfg = (2, ra, ie, "refused")
+    T = 12 if tier == "quick" else 14
+    a_times = [0] + [2 * (k + 1) for k in range(ra)] + [2 * ra]  # first failure, ra retries, the evicting call
+    times = list(range(tb, T + 1))
+    nhist = 0
+    for size in range(1, 5 if tier == "quick" else 6):
+        for sb in itertools.combinations(times, size):
+            for double in (False, True):
+                w = World(cfg)
+                b_times = list(sb) + ([sb[-1]] if double else [])
+                plan = sorted([(t, 0, "A") for t in a_times] + [(t, 1, "B") for t in b_times])
+                w.apply(("fail", 0))
+                now = 0
+                failed_b = False
+                trace = []
+                bad = []
+                for t, _, who in plan:
+                    if tb <= t and not failed_b:
+                        if tb > now:
+                            w.apply(("adv", tb - now))
+                            now = tb
+                        w.apply(("fail", 1))
+                        failed_b = True
+                    if t > now:
+                        w.apply(("adv", t - now))
+                        now = t
+                    trace.append((t, who))
+                    bad = w.op("get", 0 if who == "A" else 1)
+                    if bad:
+                        break
+                nhist += 1
+                chk.add()
+                chk.outcome(("grid", ra, ie, tb, tuple(b_times)))
+                for clause, text in bad:
+                    chk.violation(f"{clause}|two-failures|ignore_exc={ie}|retry_attempts={ra}",
+                                  text + f" [two overlapping failures: h1 fails at 0, h2 at {tb}; gets at (time, server) {trace}; "
+                                  f"retry_attempts={ra} ignore_exc={ie}]",
+                                  {"grid": [ra, ie, tb, b_times], "tier": tier})
+    chk.count("two_failure_histories", nhist)
+    chk.count("transitions", nhist)
+    chk.count("traces_validated_against_impl", nhist)
+
+
+def _any_worker(job, chk):
+    if job[0] == "grid":
+        return _grid_worker(job[1:], chk)
+    return _worker(job[1:], chk)
 
 
 def _worker(job, chk):
@@ -377,10 +443,17 @@ def run(chk):
     chk.assumptions = ["'failing' = network-level failure (refused / timeout / reset), which is what the failover logic reacts to",
                        "windows are closed intervals; only contacts made after the server started failing count",
                        "every server holds every key, so a rerouted read still finds a value"]
-    runner.parallel(chk, _worker, [(c, chk.tier) for c in configs(chk.tier)])
+    jobs = [("bfs", c, chk.tier) for c in configs(chk.tier)]
+    jobs += [("grid", (ra, ie, tb), chk.tier) for ra in (1, 2) for ie in (False, True) for tb in (0, 2, 4, 6)]
+    runner.parallel(chk, _any_worker, jobs)
 
 
 def replay(detail):
+    if detail.get("grid"):
+        tmp = runner.Check(PROPERTY, LEVEL, detail.get("tier", "quick"), 0)
+        ra, ie, tb, b_times = detail["grid"]
+        _grid_worker(((ra, ie, tb), detail.get("tier", "quick")), tmp)
+        return [v["what"] for v in tmp.violations.values()]
     cfg = tuple(detail["cfg"])
     menu = event_menu(cfg[0], detail.get("tier", "quick"))
     hist = detail["history"]
